@@ -35,9 +35,11 @@ thread_local! {
     static WILD: RefCell<u64> = RefCell::new(0); // drops of ids never created (garbage read as an element)
 }
 struct El { id: u64 }
+const MAX_ID: u64 = 1 << 22; // ids are handed out consecutively per history; anything above is garbage read as an element
 fn el(id: u64) -> El {
     if id != PH {
-        LIVE.with(|l| { let mut l = l.borrow_mut(); let i = id as usize; if l.len() <= i { l.resize(i + 1, 0); } l[i] += 1; });
+        if id >= MAX_ID { WILD.with(|w| *w.borrow_mut() += 1); }
+        else { LIVE.with(|l| { let mut l = l.borrow_mut(); let i = id as usize; if l.len() <= i { l.resize(i + 1, 0); } l[i] += 1; }); }
     }
     El { id }
 }
@@ -45,6 +47,7 @@ impl Clone for El { fn clone(&self) -> El { el(self.id) } }
 impl Drop for El {
     fn drop(&mut self) {
         if self.id == PH { return; }
+        if self.id >= MAX_ID { WILD.with(|w| *w.borrow_mut() += 1); return; }
         DROPS.with(|d| d.borrow_mut().push(self.id));
         LIVE.with(|l| { let mut l = l.borrow_mut(); let i = self.id as usize;
             if i < l.len() { l[i] -= 1; } else { WILD.with(|w| *w.borrow_mut() += 1); } });
@@ -60,7 +63,7 @@ fn take_drops() -> Vec<u64> { DROPS.with(|d| std::mem::take(&mut *d.borrow_mut()
 fn live_mismatch<'a>(held: impl Iterator<Item = &'a u64>, next_id: u64) -> Option<String> {
     let mut want = vec![0i64; next_id as usize];
     for &x in held { if (x as usize) < want.len() { want[x as usize] += 1; } }
-    if WILD.with(|w| *w.borrow()) > 0 { return Some("an element that was never created was dropped".into()); }
+    if WILD.with(|w| *w.borrow()) > 0 { return Some("a value that was never stored (uninitialised or foreign memory) was cloned or dropped as an element".into()); }
     LIVE.with(|l| {
         let l = l.borrow();
         for i in 0..want.len() {
@@ -143,7 +146,7 @@ fn ring_history(cx: &mut Ctx, cap0: u64, ops: &[Vec<u64>], force: bool) {
             _ => { coq_ops.push("TQClone".into());
                    guarded(|| { let c = q.clone(); let old = std::mem::replace(&mut q, c); drop(old); }) }
         };
-        let late = take_drops(); let drops = drops_o.unwrap_or(late);
+        let late = take_drops(); let mut drops = drops_o.unwrap_or(late); drops.sort();
         if let Err(p) = r { cx.sum.fail(cell, None, cj.clone(), &format!("op {:?} panicked: {}", o, p)); failed = true; break; }
         // what a VecDeque shows after the same operations
         let st = q.performance_stats();
@@ -215,7 +218,7 @@ fn fixed_history_n<const N: usize>(cx: &mut Ctx, ops: &[Vec<u64>], force: bool) 
                    guarded(|| { let g = q.back().map(|e| e.id); ret = enc_opt(g);
                        if g != shadow.back().copied() { problem = Some(format!("back() = {:?}, VecDeque {:?}", g, shadow.back())); } }) }
         };
-        let late = take_drops(); let drops = drops_o.unwrap_or(late);
+        let late = take_drops(); let mut drops = drops_o.unwrap_or(late); drops.sort();
         if let Err(p) = r { cx.sum.fail(cell, None, cj.clone(), &format!("op {:?} panicked: {}", o, p)); failed = true; break; }
         if problem.is_none() && (q.len() != shadow.len() || q.is_empty() != shadow.is_empty() || q.is_full() != (shadow.len() == N)) {
             problem = Some(format!("len() = {} / is_full() = {} but a bounded VecDeque holds {} of {}", q.len(), q.is_full(), shadow.len(), N)); }
@@ -296,7 +299,7 @@ fn fastvec_history(cx: &mut Ctx, cap0: u64, ops: &[Vec<u64>], force: bool) {
             _ => { coq_ops.push("TVClone".into());
                    guarded(|| { let c = v.clone(); let old = std::mem::replace(&mut v, c); drop(old); }) }
         };
-        let late = take_drops(); let drops = drops_o.unwrap_or(late);
+        let late = take_drops(); let mut drops = drops_o.unwrap_or(late); drops.sort();
         if let Err(p) = r { cx.sum.fail(cell, None, cj.clone(), &format!("op {:?} panicked: {}", o, p)); failed = true; break; }
         if problem.is_none() { let got: Vec<u64> = v.as_slice().iter().map(|e| e.id).collect();
             if v.len() != shadow.len() || got != shadow { problem = Some(format!("holds {:?} (len {}), a Vec holds {:?}", got, v.len(), shadow)); } }
